@@ -981,6 +981,7 @@ void COVER_best_finish(COVER_best_t* best,
         if (!best->dict) {
           best->compressedSize = ERROR(GENERIC);
           best->dictSize = 0;
+          ZSTD_VERIF_EV("cvFinish", best, liveJobs, -1, 0, parameters.k, parameters.d, 0);
           ZSTD_pthread_cond_signal(&best->cond);
           ZSTD_pthread_mutex_unlock(&best->mutex);
           return;
